@@ -489,11 +489,35 @@ def vValidValue (prim : String) (p : Path) (v : ValidValue) : R Unit := do
   let wrongChar := isChar && v.value.utf8ByteSize != 1
   need (!(wrongChar || (!isChar && !valueFitsIntoType v.value prim))) .valueOutOfRange vp
 
+/-- `utils::strip_leading_zeros` -/
+def stripLeadingZeros (value : List Char) : List Char :=
+  let isNegative := value.head? == some '-'
+  let digits := if isNegative then value.drop 1 else value
+  let digits := match digits.dropWhile (· == '0') with
+    | [] => digits.getLast?.toList      -- all zeros: the last one stays
+    | r => r
+  (if isNegative then ['-'] else []) ++ digits
+
+/-- the key of `unique_values`: `1`, `01` and `-0`, `0` represent the same value -/
+def normalizedEnumValue (prim : String) (v : ValidValue) : String :=
+  if prim == "char" then v.value
+  else
+    let n := stripLeadingZeros v.value.toList
+    String.ofList (if n == ['-', '0'] then ['0'] else n)
+
+/-- the loop of `validate_valid_values` -/
+def vValidValues (prim : String) (p : Path) : List String → List ValidValue → R Unit
+  | _, [] => .ok ()
+  | seen, v :: rest => do
+    vValidValue prim p v
+    need (!seen.contains (normalizedEnumValue prim v)) .duplicateEnumValue (p ++ [v.name])
+    vValidValues prim p (normalizedEnumValue prim v :: seen) rest
+
 def vEnum (types : List Elem) (p : Path) (n enc : String) (vs : List ValidValue) : R Nat := do
   vName n p
   let prim ← vEncodingType types p enc
   need (isIntegralType prim) .enumTypeNotIntegral p
-  allOk (vValidValue prim p) vs
+  vValidValues prim p [] vs
   .ok ((primSize? prim).getD 0)
 
 def vChoice (bitLength : Nat) (p : Path) (c : Choice) : R Unit := do
@@ -626,13 +650,29 @@ def vLevelHeaderElement (types : List Elem) (hp : Path) (elems : List Elem) (nam
   let (t, ep) ← levelHeaderElement types hp elems name
   need (t.length == 1) .headerElementArray ep
   need (t.presence != .constant) .headerElementConstant ep
+  need (isIntegralType t.prim) .headerElementNotInteger ep
 
 /-- `validate_level_header` -/
 def vLevelHeader (types : List Elem) (user : Path) (hdr : String) (required : List String) : R Unit :=
   match lookup types hdr with
   | none => fail .headerUnknown user
-  | some (.composite n _ elems _) => allOk (vLevelHeaderElement types ["types", n] elems) required
+  | some (.composite n _ elems _) => do
+    allOk (vLevelHeaderElement types ["types", n] elems) required
+    -- optional elements, the header fillers set them if they exist
+    allOk (fun field =>
+      if (elems.find? (fun e => e.name == field)).isSome then vLevelHeaderElement types ["types", n] elems field
+      else .ok ()) ["numGroups", "numVarDataFields"]
   | some e => fail .headerNotComposite ["types", e.name]
+
+/-- `validate_header_value`: what a header filler writes must be representable by the element -/
+def vHeaderValue (types : List Elem) (hdr name : String) (value : Nat) (loc : Path) : R Unit :=
+  match lookup types hdr with
+  | some (.composite n _ elems _) =>
+    if (elems.find? (fun e => e.name == name)).isNone then .ok ()
+    else do
+      let (t, _) ← levelHeaderElement types ["types", n] elems name
+      need (valueFitsIntoType (toString value) t.prim) .headerValueOutOfRange loc
+  | _ => .ok ()   -- (`std::get` on a header that was validated before)
 
 /-- `validate_data_header` -/
 def vDataHeader (types : List Elem) (user : Path) (hdr : String) : R Unit :=
@@ -703,6 +743,15 @@ def vDatas (types : List Elem) (lp : Path) : List DataDef → R Unit
     vDataHeader types (lp ++ [d.name]) d.type
     vDatas types lp rest
 
+/-- `validate_block_length` and the two counters of `validate_members` -/
+def vLevelValues (types : List Elem) (hdr : String) (p : Path) (bl : Option Nat) (off nGroups nDatas : Nat) : R Unit :=
+  match blockLength bl off with
+  | .error _ => fail .blockLengthTooSmall p
+  | .ok b => do
+    vHeaderValue types hdr "blockLength" b p
+    vHeaderValue types hdr "numGroups" nGroups p
+    vHeaderValue types hdr "numVarDataFields" nDatas p
+
 mutual
   /-- `validate_members` of a group (after its name and header) -/
   def vGroup (types : List Elem) (lp : Path) : GroupDef → R Unit
@@ -711,9 +760,7 @@ mutual
       vName n p
       vLevelHeader types p dim ["numInGroup", "blockLength"]
       let off ← vFields types p 0 fields
-      (match blockLength bl off with
-       | .error _ => fail .blockLengthTooSmall p
-       | .ok _ => .ok ())
+      vLevelValues types dim p bl off groups.length datas.length
       vGroups types p groups
       vDatas types p datas
   def vGroups (types : List Elem) (lp : Path) : List GroupDef → R Unit
@@ -724,20 +771,21 @@ mutual
 end
 
 /-- `validate_message` -/
-def vMessage (types : List Elem) (m : MessageDef) : R Unit := do
+def vMessage (types : List Elem) (hdr : String) (m : MessageDef) : R Unit := do
   let p := ["messages", m.name]
   vName m.name p
+  vHeaderValue types hdr "templateId" m.id p
   let off ← vFields types p 0 m.fields
-  (match blockLength m.blockLength off with
-   | .error _ => fail .blockLengthTooSmall p
-   | .ok _ => .ok ())
+  vLevelValues types hdr p m.blockLength off m.groups.length m.datas.length
   vGroups types p m.groups
   vDatas types p m.datas
 
 /-- `validate_messages` -/
 def messagesPhase (s : SchemaDef) : R Unit := do
   vLevelHeader s.types ["schema"] s.headerType ["schemaId", "templateId", "version", "blockLength"]
-  allOk (vMessage s.types) s.messages
+  vHeaderValue s.types s.headerType "schemaId" s.id ["schema"]
+  vHeaderValue s.types s.headerType "version" s.version ["schema"]
+  allOk (vMessage s.types s.headerType) s.messages
 
 /-! ### `sbe_schema_cpp_validator` -/
 
